@@ -81,9 +81,22 @@ def run(ctx):
         if rc != 0:
             raise vlib.ToolError("record_codec failed: " + (out + err)[-500:])
         kinds = {}
+        sweep = set()
+        edns_built = False
         for l in open(tr):
             o = json.loads(l)
             kinds[(o["ev"], o.get("side"))] = kinds.get((o["ev"], o.get("side")), 0) + 1
+            if o.get("script") == "sweep" and o.get("side") == "new":
+                sweep.add((o["forward"], o["suffix_at"]))
+            if o["ev"] == "built" and o["items"] and o["items"][-1][0] == 4 and \
+               o["items"][-1][1][3] // 256 != o["items"][-1][1][3] % 256:
+                edns_built = True
+        for fw in (False, True):
+            for at in (16383, 16384, 16385):
+                if (fw, at) not in sweep:
+                    raise vlib.ToolError("vacuity: no sweep script puts a suffix at %d (forward=%s)" % (at, fw))
+        if not edns_built:
+            raise vlib.ToolError("vacuity: no built message carries an EDNS record with ext_rcode != version")
         for need in (("built", "old"), ("built", "new"), ("bigbuilt", "old"), ("bigbuilt", "new"),
                      ("fill", "old"), ("trunc", "old")):
             if not kinds.get(need):
